@@ -621,6 +621,15 @@ pub fn fam_codata(_cfg: &FunCfg, sink: &mut FunSink) {
         ("return_codata_var", "def pick(b: i64, f: Fun[i64, i64], g: Fun[i64, i64]): Fun[i64, i64] { if b == 0 { f } else { g } }\ndef idf(f: Fun[i64, i64]): Fun[i64, i64] { f }\ndef main(n: i64): i64 { println_i64(pick(n, new { ap(q) => q + 1 }, new { ap(q) => q * 2 }).ap[i64, i64](20)); println_i64(idf(pick(n - 1, new { ap(q) => q - 7 }, idf(new { ap(q) => q * n }))).ap[i64, i64](5)); 0 }".into()),
         ("return_codata_clause", "def sel(l: List[i64], f: Stream[i64], g: Stream[i64]): Stream[i64] { l.case[i64] { Nil => f, Cons(h, t) => g } }\ndef main(n: i64): i64 { println_i64(sel(range(n), nats(10), nats(20)).hd[i64]); println_i64(sel(Nil, nats(n), nats(5)).tl[i64].hd[i64]); 0 }".into()),
         ("return_codata_label", "def viaLabel(b: i64, f: Fun[i64, i64], g: Fun[i64, i64]): Fun[i64, i64] { label k { if b == 0 { goto k (f) } else { g } } }\ndef main(n: i64): i64 { println_i64(viaLabel(n, new { ap(q) => q + 3 }, new { ap(q) => q * 5 }).ap[i64, i64](4)); 0 }".into()),
+        ("label_cocase_reenter", "def handler(a: i64, b: i64, n: i64): Fun[i64, i64] { label k { new { ap(x) => if x < 0 { goto k (new { ap(y) => y + n }) } else { (x * a) * b } } } }\ndef main(n: i64): i64 { println_i64(handler(2, 3, n).ap[i64, i64](7)); println_i64(handler(2, 3, n).ap[i64, i64](0 - 1)); 0 }".into()),
+        ("label_cocase_apply", "def mk(n: i64): Fun[i64, i64] { label k { new { ap(x) => if x == 0 { (goto k (new { ap(y) => y + n })).ap[i64, i64](x) } else { x * n } } } }\ndef main(n: i64): i64 { println_i64(mk(n + 1).ap[i64, i64](3)); println_i64(mk(n + 1).ap[i64, i64](0)); 0 }".into()),
+        ("label_stream_body", "def from(n: i64): Stream[i64] { label k { new { hd => n, tl => if n == 2 { goto k (nats(50)) } else { from(n + 1) } } } }\ndef main(n: i64): i64 { println_i64(from(n).tl[i64].hd[i64]); println_i64(from(n).tl[i64].tl[i64].hd[i64]); 0 }".into()),
+        // the receiver of a destructor is a branching term whose branches are destructor invocations /
+        // calls / variables with a codata result of ANOTHER type than their own receiver
+        ("receiver_if_of_dtors", "codata Scaler { scale(x: i64): i64 }\ncodata Shop { stock: i64, price: i64, discount: Scaler }\ndef mkShop(n: i64): Shop { new { stock => n, price => n * 10, discount => new { scale(x) => x - n } } }\ndef pick(b: i64, s1: Shop, s2: Shop): i64 { (if b == 0 { s1.discount } else { s2.discount }).scale(100) }\ndef main(n: i64): i64 { println_i64(pick(n, mkShop(3), mkShop(7))); println_i64(pick(0, mkShop(n), mkShop(1))); 0 }".into()),
+        ("receiver_case_of_dtors", "codata Scaler { scale(x: i64): i64 }\ncodata Shop { stock: i64, price: i64, discount: Scaler }\ndef mkShop(n: i64): Shop { new { stock => n, price => n * 10, discount => new { scale(x) => x - n } } }\ndef pick(l: List[i64], s1: Shop, s2: Shop): i64 { (l.case[i64] { Nil => s1.discount, Cons(h, t) => s2.discount }).scale(100) }\ndef main(n: i64): i64 { println_i64(pick(range(n), mkShop(3), mkShop(7))); 0 }".into()),
+        ("receiver_if_of_calls", "def adder(d: i64): Fun[i64, i64] { new { ap(q) => q + d } }\ndef pick(b: i64): i64 { (if b == 0 { adder(1) } else { adder(b * 10) }).ap[i64, i64](100) }\ndef main(n: i64): i64 { println_i64(pick(n)); println_i64(pick(0)); 0 }".into()),
+        ("receiver_if_of_streams", "def pick(b: i64, s: Stream[Stream[i64]]): i64 { (if b == 0 { s.hd[Stream[i64]] } else { s.tl[Stream[i64]].hd[Stream[i64]] }).tl[i64].hd[i64] }\ndef rows(k: i64): Stream[Stream[i64]] { new { hd => nats(k), tl => rows(k * 10) } }\ndef main(n: i64): i64 { println_i64(pick(n, rows(1))); println_i64(pick(0, rows(n + 2))); 0 }".into()),
         ("capture_many", "def main(n: i64): i64 { let a1: i64 = n + 1; let a2: i64 = n + 2; let a3: i64 = n + 3; let a4: i64 = n + 4; let a5: i64 = n + 5; let l: List[i64] = range(3); let f: Fun[i64, i64] = new { ap(q) => ((((q + a1) + a2) + a3) + a4) + (a5 + sum(l)) }; println_i64(f.ap[i64, i64](100)); println_i64(f.ap[i64, i64](200)); println_i64(sum(l)); 0 }".into()),
     ];
     for (name, body) in progs {
@@ -639,6 +648,18 @@ pub fn fam_names(_cfg: &FunCfg, sink: &mut FunSink) {
             );
             FunCase { name: format!("names/def/{dn}"), src, inputs: vec![vec![0], vec![3]], sequenced: true }
         });
+    }
+    // a parameter (variable or covariable) named like its own definition; a variable named like another definition
+    for (i, src_body) in [
+        "def fac(fac: i64): i64 { if fac <= 1 { 1 } else { fac * fac(fac - 1) } }\ndef main(n: i64): i64 { println_i64(fac(n)); 0 }",
+        "def esc(v: i64, esc :cns i64): i64 { if v == 0 { goto esc (7) } else { v + 1 } }\ndef main(n: i64): i64 { println_i64(label k { 100 + esc(n, k) }); 0 }",
+        "def inc2(v: i64): i64 { v + 2 }\ndef main(n: i64): i64 { let inc2: i64 = inc2(n); let inc: i64 = inc(inc2); println_i64(inc + inc2); 0 }",
+        "def main(main: i64): i64 { println_i64(main); main }",
+    ]
+    .into_iter()
+    .enumerate()
+    {
+        sink.offer(move || FunCase { name: format!("names/param_like_def/{i}"), src: format!("{PRELUDE_TYPES}{PRELUDE_DEFS}{src_body}\n"), inputs: vec![vec![0], vec![3]], sequenced: true });
     }
     let var_names = ["x0", "a0", "x1", "a1", "lab1", "rax", "rsp", "share_main_0"];
     for vn in var_names {
@@ -912,6 +933,7 @@ pub fn fam_alias(_cfg: &FunCfg, sink: &mut FunSink) {
         ("if_eq_rev", "if b == a { println_i64(1); 0 } else { println_i64(2); 0 }"),
         ("ifz_snd", "if b == 0 { println_i64(a); 0 } else { println_i64(b); 1 }"),
         ("print_both", "println_i64(b); println_i64(a); 0"),
+        ("print_no_newline", "print_i64(a); print_i64(b); println_i64(a - b); print_i64(b); 0"),
         ("call", "println_i64(sub2(a, b)); 0"),
         ("call_rev", "println_i64(sub2(b, a)); 0"),
         ("ctor", "println_i64(Tup(a, b).case[i64, i64] { Tup(p, q) => p - q }); 0"),
@@ -991,6 +1013,19 @@ pub fn fam_positions(_cfg: &FunCfg, sink: &mut FunSink) {
         ("paren", "((#)) - x"),
         ("nested_op_in_call", "sub2(x, x - #)"),
     ];
+    // a `goto` to an enclosing label in every child position (an effect in operand positions: for
+    // C03-C05 and C12 only; every renaming of the label has to reach every position)
+    for (pn, pos) in &positions {
+        let (pn, pos) = (*pn, *pos);
+        if pn == "goto_arg" || pn == "label_body" || pn == "exit_arg" {
+            continue; // these positions bind / use a label `k` themselves
+        }
+        sink.offer(move || {
+            let body = pos.replace('#', "(if x == 3 { goto kk (55) } else { 7 })");
+            let src = format!("{PRELUDE_TYPES}{PRELUDE_DEFS}def sub2(p: i64, q: i64): i64 {{ p - q }}\ndef f(x: i64): i64 {{ label kk {{ {body} }} }}\ndef g(x: i64, kk :cns i64): i64 {{ {body} }}\ndef main(n: i64): i64 {{ println_i64(f(n)); println_i64(f(7)); println_i64(label out {{ g(n, out) + 1000 }}); 0 }}\n");
+            FunCase { name: format!("positions/goto/{pn}"), src, inputs: vec![vec![0], vec![3]], sequenced: false }
+        });
+    }
     for (bn, block) in &blocks {
         for (pn, pos) in &positions {
             let (bn, block, pn, pos) = (*bn, *block, *pn, *pos);
